@@ -197,9 +197,11 @@ impl C04 {
             v.push(Op::Call { ok: false, kind: 1, lat: 0 });
         }
         v.push(Op::Wait(self.cfg.wait_ms));
-        v.push(Op::Wait(10));
+        // a short wait: 10 ms, or half the open wait in the seconds-range configurations
+        let short = if self.cfg.wait_ms >= 1000 { self.cfg.wait_ms / 2 } else { 10 };
+        v.push(Op::Wait(short));
         if self.cfg.time_based {
-            v.push(Op::Wait(self.cfg.window_ms + 10));
+            v.push(Op::Wait(self.cfg.window_ms + short));
         }
         v.push(Op::ForceOpen);
         v.push(Op::ForceClosed);
@@ -482,6 +484,26 @@ pub fn grid(thorough: bool) -> Vec<CbCfg> {
                     }
                 }
             }
+        }
+    }
+    // everything in the seconds range: open wait 1.5 s, time window 2.5 s (ages of 0.75 s,
+    // 1.5 s, 2.25 s, 3 s ...: whole seconds and sub-second parts on both sides of the limits)
+    for time_based in [false, true] {
+        for permitted in [1usize, 2] {
+            v.push(CbCfg {
+                time_based,
+                window_size: 2,
+                window_ms: 2500,
+                threshold: 0.5,
+                min_calls: None,
+                wait_ms: 1500,
+                permitted,
+                slow_ms: None,
+                slow_rate: 1.0,
+                custom_classifier: false,
+                fallback: false,
+                fallback_gated: false,
+            });
         }
     }
     v
